@@ -104,7 +104,7 @@ def run(ctx):
                 "x every format of the record + 2000 seeded values from the full product of the pin domains; thorough: "
                 "three-wise-complete + 60000; non-trivial = the value is not the minimal base value; distinct by abstract content. "
                 "Sequence cases (several values through one encoder/decoder: 2..8-pin states through the dsstate snapshot into a fresh / "
-                "a non-empty in-memory datastore and through the export stream and through the real cmdutils ExportState -> ImportState of Raft state managers on temp dirs; lists of every record type via msgpack and JSON): all "
+                "a non-empty in-memory datastore and through the export stream and through the real cmdutils ExportState -> ImportState of Raft state managers on temp dirs; committed as LogOps through the real go-libp2p-raft FSM of consensus/raft, which decodes into a reused LogOp; lists of every record type via msgpack and JSON; bursts of 3..8 metrics through real pubsubmon monitors on a two-peer gossipsub): all "
                 "ordered pairs over the one-field variations of the minimal base and all bases + 40 (quick) / 1500 (thorough) seeded "
                 "sequences per length 3..8, record type and format. Decoder totality inputs are counted separately (decoder_inputs_sampled) and are SAMPLING: structured "
                 "corruptions of real encodings (every truncation offset, byte substitutions at every offset, inserted "
